@@ -273,5 +273,56 @@ theorem validate_eq (n r : Name) (h : validate n = .ok r) : r = n := by
         · simp only [Except.ok.injEq] at h; exact h.symm
       · simp only [Except.ok.injEq] at h; exact h.symm
 
+theorem firstEmpty_none_mem (n : List Label) (j : Nat) (h : firstEmpty n j = none) : ∀ l ∈ n, l ≠ [] := by
+  induction n generalizing j with
+  | nil => intro l hl; cases hl
+  | cons x xs ih =>
+    simp only [firstEmpty] at h
+    split at h
+    · cases h
+    · rename_i hx
+      intro l hl
+      rcases List.mem_cons.1 hl with e | e
+      · subst e; exact hx
+      · exact ih (j + 1) h l e
+
+/-- `Name(labels)` accepts only well-formed label lists -/
+theorem wf_of_validate (n r : Name) (h : validate n = .ok r) : WfName n := by
+  unfold validate at h
+  split at h
+  · cases h
+  · rename_i h1
+    split at h
+    · cases h
+    · rename_i h2
+      have hw1 : ∀ l ∈ n, l.length ≤ Consts.maxLabel := by
+        intro l hl
+        have h1' : (n.any fun l => decide (l.length > Consts.maxLabel)) = false := by
+          cases hh : (n.any fun l => decide (l.length > Consts.maxLabel))
+          · rfl
+          · exact absurd hh h1
+        rw [List.any_eq_false] at h1'
+        have := h1' l hl
+        simp at this; omega
+      refine ⟨hw1, by omega, ?_⟩
+      cases hf : firstEmpty n 0 with
+      | none =>
+        intro l hl
+        exact firstEmpty_none_mem n 0 hf l (List.dropLast_subset _ hl)
+      | some i =>
+        rw [hf] at h
+        simp only at h
+        split at h
+        · cases h
+        · rename_i hi
+          have hi' : i = n.length - 1 := Classical.byContradiction fun x => hi x
+          obtain ⟨_, _, g3, _⟩ := firstEmpty_some n 0 i hf
+          simp only [Nat.sub_zero] at g3
+          intro l hl
+          obtain ⟨k, hk, rfl⟩ := List.getElem_of_mem hl
+          rw [List.getElem_dropLast]
+          simp only [List.length_dropLast] at hk
+          exact g3 k (by omega) (by omega)
+
 end NameOrder
 end Model
